@@ -81,7 +81,12 @@ func (w *world) cmdOf(chars []string) (command.Command, error) {
 			sb.WriteString(c)
 		}
 	}
-	return command.Parse(sb.String())
+	// the token carries exactly this text, whatever a parser would make of it (the harness does not build its inputs with
+	// a function that is itself under test)
+	if !command.IsValid(sb.String()) {
+		return "", fmt.Errorf("%q is not a valid command", sb.String())
+	}
+	return command.Command(sb.String()), nil
 }
 
 func genKey(alg string) (crypto.PrivKey, did.DID, error) {
